@@ -17,6 +17,15 @@ pub struct HarmonicAngleTypeA {
 }
 
 impl EnergyFunction for HarmonicAngleTypeA {
+    #[cfg(optrs_verif)]
+    fn verif_describe(&self) -> crate::verif::TermDesc {
+        crate::verif::TermDesc {
+            kind: "angle_a",
+            idxs: vec![self.i, self.j, self.k],
+            params: vec![self.k_ijk, self.n],
+        }
+    }
+
     fn involves_idxs(&self, idxs: Vec<usize>) -> bool {
         involves_idxs(self, idxs)
     }
@@ -130,6 +139,15 @@ pub struct HarmonicAngleTypeB {
 }
 
 impl EnergyFunction for HarmonicAngleTypeB {
+    #[cfg(optrs_verif)]
+    fn verif_describe(&self) -> crate::verif::TermDesc {
+        crate::verif::TermDesc {
+            kind: "angle_b",
+            idxs: vec![self.i, self.j, self.k],
+            params: vec![self.k_ijk, self.c0, self.c1, self.c2],
+        }
+    }
+
     fn involves_idxs(&self, idxs: Vec<usize>) -> bool {
         involves_idxs(self, idxs)
     }
